@@ -1257,6 +1257,10 @@ val read_k : nat -> n -> body -> bytes -> (bytes, ioerr) sum * body
 
 val body_fuel : body -> nat
 
+val carry_of : src -> bytes
+
+val with_carry : bytes -> bytes list -> bytes list
+
 val after_drop : body -> bytes list
 
 val located : bool -> body -> bool
